@@ -1342,7 +1342,7 @@ def body(res, obs, model, work, proved):
     tier = res.tier
     rng = C.Rng(res.seed)
     cov = res.coverage
-    n_types = 700 if tier == "quick" else 17000
+    n_types = 3000 if tier == "quick" else 50000
     per_type = 3
     known = {k.get("class"): k for k in load_known() if k.get("class")}
     cases = gen_cases(rng, n_types, per_type)
